@@ -28,6 +28,7 @@ theorem lit_inf : (Num.lit (α := ℝ) 0x7FF0000000000000) = 2 ^ 1024 := by
   show ((F64.toRat 0x7FF0000000000000 : ℚ) : ℝ) = 2 ^ 1024
   rw [toRat_of_fields _ 2047 0 (by decide) (by decide) (by decide) (by decide)]
   norm_num
+  rw [show (4503599627370496 : ℝ) = 2 ^ 52 by norm_num, ← pow_add]
 
 /-- `is_finite` at `ℝ`: `|x| < 2^1024` -/
 theorem isFinite_real (x : ℝ) : isFinite x = decide (|x| < 2 ^ 1024) := by
@@ -49,5 +50,273 @@ theorem ProjSIN.new_coherent (lon lat : ℝ) : (ProjSIN.new lon lat).Coherent :=
   unfold ProjSIN.new
   split
   exact ⟨rfl, rfl⟩
+
+/-- normalised input: the centre is the input position -/
+theorem ProjSIN.new_c0 (lon lat : ℝ) (hlon : 0 ≤ lon ∧ lon < 2 * π) (hlat : -(π / 2) ≤ lat ∧ lat ≤ π / 2) :
+    (ProjSIN.new lon lat).c0 = (lon, lat) := by
+  unfold ProjSIN.new ProjSIN.c0
+  have h1 : Num.lt lon (Num.zero : ℝ) = false := by rw [num_lt, num_zero]; simpa using hlon.1
+  have h2 : Num.le (Num.twicePi : ℝ) lon = false := by rw [num_le, num_twicePi]; simpa using hlon.2
+  have h3 : Num.lt lat (-(Num.halfPi : ℝ)) = false := by rw [num_lt, num_halfPi]; simpa using hlat.1
+  have h4 : Num.lt (Num.halfPi : ℝ) lat = false := by rw [num_lt, num_halfPi]; simpa using hlat.2
+  simp only [h1, h2, h3, h4, Bool.or_self, Bool.false_eq_true, if_false]
+
+/-! ## the orthographic projection -/
+
+/-- orthographic projection of `q` on the plane tangent at `c`: abscissa (towards the east) -/
+noncomputable def sinX (c q : ℝ × ℝ) : ℝ := cos q.2 * sin (q.1 - c.1)
+/-- orthographic projection of `q` on the plane tangent at `c`: ordinate (towards the north) -/
+noncomputable def sinY (c q : ℝ × ℝ) : ℝ := cos c.2 * sin q.2 - sin c.2 * cos q.2 * cos (q.1 - c.1)
+
+/-- the third coordinate is the cosine of the angular distance -/
+theorem cos_adist' (c q : ℝ × ℝ) :
+    cos (adist q c) = sin c.2 * sin q.2 + cos c.2 * cos q.2 * cos (q.1 - c.1) := by
+  rw [cos_adist]; ring
+
+theorem sin_adist_nonneg (p q : ℝ × ℝ) : 0 ≤ sin (adist p q) :=
+  sin_nonneg_of_nonneg_of_le_pi (adist_nonneg _ _) (adist_le_pi _ _)
+
+/-- `x² + y² = sin²(angular distance)` -/
+theorem sinXY_norm (c q : ℝ × ℝ) : sinX c q ^ 2 + sinY c q ^ 2 = sin (adist q c) ^ 2 := by
+  have h := sin_proj_norm c.2 q.2 (q.1 - c.1)
+  have h2 := sin_sq_add_cos_sq (adist q c)
+  rw [cos_adist'] at h2
+  unfold sinX sinY
+  linarith
+
+theorem sqrt_sinXY (c q : ℝ × ℝ) : Real.sqrt (sinX c q * sinX c q + sinY c q * sinY c q) = sin (adist q c) := by
+  rw [show sinX c q * sinX c q + sinY c q * sinY c q = sin (adist q c) ^ 2 by rw [← sinXY_norm]; ring]
+  exact Real.sqrt_sq (sin_adist_nonneg _ _)
+
+/-- **`ProjSIN::proj` is the orthographic projection**, defined exactly on the open visible hemisphere
+    (`cos(angular distance) > 0`, the great circle at `π/2` excluded) -/
+theorem proj_sin_spec (p : ProjSIN ℝ) (hp : p.Coherent) (l φ : ℝ) :
+    p.proj l φ = if 0 < cos (adist (l, φ) p.c0) then some (sinX p.c0 (l, φ), sinY p.c0 (l, φ)) else none := by
+  unfold ProjSIN.proj
+  simp only [num_sin, num_cos, hp.1, hp.2, num_gt, num_zero, cos_adist', ProjSIN.c0, sinX, sinY, decide_eq_true_eq]
+
+/-- the projection is defined iff the point is at less than `π/2` of the centre -/
+theorem proj_isSome_iff (p : ProjSIN ℝ) (hp : p.Coherent) (l φ : ℝ) :
+    (p.proj l φ).isSome = true ↔ adist (l, φ) p.c0 < π / 2 := by
+  rw [proj_sin_spec p hp]
+  have h0 := adist_nonneg (l, φ) p.c0
+  have hpi := adist_le_pi (l, φ) p.c0
+  constructor
+  · intro h
+    split at h
+    · rename_i hc
+      by_contra hge
+      have := cos_nonpos_of_pi_div_two_le_of_le (not_lt.mp hge) (by linarith)
+      linarith
+    · simp at h
+  · intro h
+    rw [if_pos (cos_pos_of_mem_Ioo ⟨by linarith, h⟩)]
+    rfl
+
+/-- the norm of the projected point is the sine of the angular distance -/
+theorem proj_norm (p : ProjSIN ℝ) (hp : p.Coherent) (l φ x y : ℝ) (h : p.proj l φ = some (x, y)) :
+    x ^ 2 + y ^ 2 = sin (adist (l, φ) p.c0) ^ 2 ∧ adist (l, φ) p.c0 < π / 2 := by
+  refine ⟨?_, (proj_isSome_iff p hp l φ).mp (by rw [h]; rfl)⟩
+  rw [proj_sin_spec p hp] at h
+  split at h
+  · cases h; exact sinXY_norm _ _
+  · simp at h
+
+/-- `atan2(sin d, cos d) = d` for `d ∈ [0, π]` -/
+theorem arg_cos_sin (d : ℝ) (h0 : 0 ≤ d) (hpi : d ≤ π) : Complex.arg ⟨cos d, sin d⟩ = d := by
+  have := Complex.arg_cos_add_sin_mul_I (θ := d) ⟨by linarith [pi_pos], hpi⟩
+  calc Complex.arg ⟨cos d, sin d⟩ = Complex.arg (Complex.cos d + Complex.sin d * Complex.I) := by
+        congr 1
+        apply Complex.ext <;> simp [Complex.cos_ofReal_re, Complex.sin_ofReal_re]
+    _ = d := this
+
+/-- **`forced_proj_and_distance`** (after the repair of finding F18): for *every* point of the sphere, the same
+    `(x, y)` as the orthographic projection (mirror image for the points of the far hemisphere) together with the
+    exact angular distance to the centre, in `[0, π]` -/
+theorem forcedProjAndDistance_spec (p : ProjSIN ℝ) (hp : p.Coherent) (l φ : ℝ) :
+    p.forcedProjAndDistance l φ = ((sinX p.c0 (l, φ), sinY p.c0 (l, φ)), adist (l, φ) p.c0) := by
+  unfold ProjSIN.forcedProjAndDistance
+  simp only [num_sin, num_cos, hp.1, hp.2, num_atan2, num_sqrt]
+  have hs := sqrt_sinXY p.c0 (l, φ)
+  have hc := cos_adist' p.c0 (l, φ)
+  unfold sinX sinY ProjSIN.c0 at hs
+  unfold ProjSIN.c0 at hc
+  simp only at hs hc
+  rw [hs, ← hc, arg_cos_sin _ (adist_nonneg _ _) (adist_le_pi _ _)]
+  rfl
+
+/-! ## circles: `a = b` -/
+
+/-- the ellipse test with equal semi-axes `S > 0` is the disc test, for every orientation -/
+theorem circle_test (S s c x y : ℝ) (hS : 0 < S) (hsc : s * s + c * c = 1) :
+    (Ellipse.fromOriented (α := ℝ) S S s c).contains x y = true ↔ x ^ 2 + y ^ 2 ≤ S ^ 2 := by
+  rw [ellipse_contains_real S S s c x y (ne_of_gt hS) (ne_of_gt hS) hsc]
+  have hsum : ((x * c + y * s) / S) ^ 2 + ((x * s - y * c) / S) ^ 2 = (x ^ 2 + y ^ 2) / S ^ 2 := by
+    field_simp
+    linear_combination (x ^ 2 + y ^ 2) * hsc
+  rw [hsum, div_le_one (by positivity)]
+
+/-- `sin²` is increasing on `[0, π/2]` -/
+theorem sin_sq_le_iff (d t : ℝ) (hd : 0 ≤ d ∧ d ≤ π / 2) (ht : 0 ≤ t ∧ t ≤ π / 2) :
+    sin d ^ 2 ≤ sin t ^ 2 ↔ d ≤ t := by
+  have h1 : 0 ≤ sin d := sin_nonneg_of_nonneg_of_le_pi hd.1 (by linarith [pi_pos])
+  have h2 : 0 ≤ sin t := sin_nonneg_of_nonneg_of_le_pi ht.1 (by linarith [pi_pos])
+  rw [sq_le_sq₀ h1 h2]
+  exact strictMonoOn_sin.le_iff_le ⟨by linarith [pi_pos], hd.2⟩ ⟨by linarith [pi_pos], ht.2⟩
+
+theorem theta_unit (pa : ℝ) : sin ((Num.halfPi : ℝ) - pa) * sin ((Num.halfPi : ℝ) - pa) +
+    cos ((Num.halfPi : ℝ) - pa) * cos ((Num.halfPi : ℝ) - pa) = 1 := by
+  have := sin_sq_add_cos_sq ((Num.halfPi : ℝ) - pa); nlinarith [this]
+
+/-- **circular case, membership**: for `a = b` and *any* centre, the elliptical-cone membership is
+    `angular distance to the centre ≤ a` -/
+theorem econe_contains_circular' (lon lat a pa l φ : ℝ) (ha : 0 < a ∧ a < π / 2) :
+    (ECone.new (α := ℝ) lon lat a a pa).contains l φ = true ↔ adist (l, φ) (ProjSIN.new lon lat).c0 ≤ a := by
+  unfold ECone.contains ECone.new
+  simp only [num_sin, num_cos]
+  rw [proj_sin_spec _ (ProjSIN.new_coherent lon lat)]
+  have h0 := adist_nonneg (l, φ) (ProjSIN.new lon lat).c0
+  have hpi := adist_le_pi (l, φ) (ProjSIN.new lon lat).c0
+  have hsa : 0 < sin a := sin_pos_of_pos_of_lt_pi ha.1 (by linarith [pi_pos])
+  by_cases hc : 0 < cos (adist (l, φ) (ProjSIN.new lon lat).c0)
+  · have hd : adist (l, φ) (ProjSIN.new lon lat).c0 < π / 2 := by
+      by_contra hge
+      have := cos_nonpos_of_pi_div_two_le_of_le (not_lt.mp hge) (by linarith)
+      linarith
+    simp only [if_pos hc]
+    rw [circle_test _ _ _ _ _ hsa (theta_unit pa), sinXY_norm, sin_sq_le_iff _ _ ⟨h0, hd.le⟩ ⟨ha.1.le, ha.2.le⟩]
+  · simp only [if_neg hc]
+    constructor
+    · intro h; exact absurd h (by simp)
+    · intro h
+      exact absurd (cos_pos_of_mem_Ioo ⟨by linarith, by linarith⟩) hc
+
+/-- **circular case, `contains_cone`**: for `a = b < π/2` and a radius `r ≥ 0`, the test answers `true` exactly when
+    the whole cone of radius `r` around `(l, φ)` lies at `≤ a` of the centre with `r < a`:
+    `angular distance + r ≤ a`.  (Sound *and* complete in the circular case.) -/
+theorem contains_cone_circular (lon lat a pa l φ r : ℝ) (ha : 0 < a ∧ a < π / 2) (hr : 0 ≤ r) :
+    (ECone.new (α := ℝ) lon lat a a pa).containsCone l φ r = true ↔
+      r < a ∧ adist (l, φ) (ProjSIN.new lon lat).c0 + r ≤ a := by
+  unfold ECone.containsCone ECone.new
+  simp only [num_sin, num_cos, num_ge]
+  by_cases hra : a ≤ r
+  · simp only [hra, decide_true, if_true]
+    constructor
+    · intro h; exact absurd h (by simp)
+    · intro h; exact absurd h.1 (not_lt.mpr hra)
+  · simp only [hra, decide_false, Bool.false_eq_true, if_false]
+    have hra' : r < a := not_le.mp hra
+    rw [proj_sin_spec _ (ProjSIN.new_coherent lon lat)]
+    have h0 := adist_nonneg (l, φ) (ProjSIN.new lon lat).c0
+    have hpi := adist_le_pi (l, φ) (ProjSIN.new lon lat).c0
+    have hsa : 0 < sin (a - r) := sin_pos_of_pos_of_lt_pi (by linarith) (by linarith [pi_pos])
+    by_cases hc : 0 < cos (adist (l, φ) (ProjSIN.new lon lat).c0)
+    · have hd : adist (l, φ) (ProjSIN.new lon lat).c0 < π / 2 := by
+        by_contra hge
+        have := cos_nonpos_of_pi_div_two_le_of_le (not_lt.mp hge) (by linarith)
+        linarith
+      simp only [if_pos hc]
+      rw [circle_test _ _ _ _ _ hsa (theta_unit pa), sinXY_norm,
+        sin_sq_le_iff _ _ ⟨h0, hd.le⟩ ⟨by linarith, by linarith⟩]
+      constructor
+      · intro h; exact ⟨hra', by linarith⟩
+      · intro h; linarith [h.2]
+    · simp only [if_neg hc]
+      constructor
+      · intro h; exact absurd h (by simp)
+      · intro h
+        exact absurd (cos_pos_of_mem_Ioo ⟨by linarith, by linarith [h.2]⟩) hc
+
+/-- **`contains_cone` is sound in the circular case**: if it answers `true`, every point within `r` of `(l, φ)` is within
+    `a` of the centre (so belongs to the cone, `econe_contains_circular'`) -/
+theorem contains_cone_circular_sound (lon lat a pa l φ r : ℝ) (ha : 0 < a ∧ a < π / 2) (hr : 0 ≤ r)
+    (h : (ECone.new (α := ℝ) lon lat a a pa).containsCone l φ r = true) (q : ℝ × ℝ) (hq : adist (l, φ) q ≤ r) :
+    adist q (ProjSIN.new lon lat).c0 ≤ a ∧ (ECone.new (α := ℝ) lon lat a a pa).contains q.1 q.2 = true := by
+  have h1 := ((contains_cone_circular lon lat a pa l φ r ha hr).mp h).2
+  have h2 := adist_triangle q (l, φ) (ProjSIN.new lon lat).c0
+  rw [adist_comm q (l, φ)] at h2
+  have h3 : adist q (ProjSIN.new lon lat).c0 ≤ a := by linarith
+  exact ⟨h3, (econe_contains_circular' lon lat a pa q.1 q.2 ha).mpr h3⟩
+
+/-! ## `overlap_cone` at `ℝ` -/
+
+/-- sufficient condition for the covariance-form test: `det ≥ 0` and `pᵀ adj(M) p ≤ det M` -/
+theorem cov_contains_of (Sx Sy ρ X Y : ℝ) (hdet : 0 ≤ Sx * Sy - ρ * ρ)
+    (h : X * X * Sy - 2 * (ρ * X * Y) + Y * Y * Sx ≤ Sx * Sy - ρ * ρ) :
+    (Ellipse.fromCov (α := ℝ) Sx Sy ρ).contains X Y = true := by
+  unfold Ellipse.contains Ellipse.fromCov pow2
+  rw [num_le, num_one, num_two, decide_eq_true_eq]
+  simp only
+  rcases eq_or_lt_of_le hdet with h0 | hpos
+  · rw [← h0]; simp
+  · rw [one_div, inv_mul_le_iff₀ hpos]; linarith
+
+theorem fromOriented_neg (a b s c : ℝ) :
+    Ellipse.fromOriented (α := ℝ) a b (-s) (-c) = Ellipse.fromOriented a b s c := by
+  unfold Ellipse.fromOriented pow2
+  simp only [neg_mul_neg]
+
+/-- **`overlap_cone` unfolded over the reals**: `d` the angular distance between the cone centre `(l, φ)` and the
+    centre of the ellipse, `(u, v)` the direction of the projected cone centre.  The special case "the cell centre is the
+    ellipse centre" (`1 / norm` not finite) is, at `ℝ`, `0 < sin d ≤ 2^-1024` (the inverse overflows `f64`); with exact
+    division `1 / 0 = 0` is finite, whereas in `f64` it is `+∞`: see `overlap_cone_centre_special_case` -/
+theorem overlapCone_real (e : ECone ℝ) (he : e.center.Coherent) (l φ r : ℝ) (hr : 0 < r) :
+    e.overlapCone l φ r =
+      (if e.a + r < adist (l, φ) e.center.c0 then some false
+       else if ¬ |1 / sin (adist (l, φ) e.center.c0)| < 2 ^ 1024 then some (decide (r ≤ e.b))
+       else some ((e.ellipse.extendedGeom (Ellipse.fromOriented (sin r)
+            (1 / 2 * |sin (adist (l, φ) e.center.c0 + r) - sin (adist (l, φ) e.center.c0 - r)|)
+            (-(sinX e.center.c0 (l, φ) * (1 / sin (adist (l, φ) e.center.c0))))
+            (sinY e.center.c0 (l, φ) * (1 / sin (adist (l, φ) e.center.c0))))).contains
+          (1 / 2 * (sin (adist (l, φ) e.center.c0 + r) + sin (adist (l, φ) e.center.c0 - r)) *
+            (sinX e.center.c0 (l, φ) * (1 / sin (adist (l, φ) e.center.c0))))
+          (1 / 2 * (sin (adist (l, φ) e.center.c0 + r) + sin (adist (l, φ) e.center.c0 - r)) *
+            (sinY e.center.c0 (l, φ) * (1 / sin (adist (l, φ) e.center.c0)))))) := by
+  unfold ECone.overlapCone
+  rw [forcedProjAndDistance_spec _ he]
+  have hr' : Num.gt r (Num.zero : ℝ) = true := by rw [num_gt, num_zero]; simpa using hr
+  simp only [hr', Bool.not_true, Bool.false_eq_true, if_false]
+  simp only [num_lt, num_sin, num_half', num_abs, num_one, num_sqrt,
+    pow2, sqrt_sinXY, isFinite_real, num_ge, num_zero, num_le]
+  by_cases h1 : e.a + r < adist (l, φ) e.center.c0
+  · simp only [h1, decide_true, if_true]
+  · simp only [h1, decide_false, Bool.false_eq_true, if_false]
+    by_cases h2 : |1 / sin (adist (l, φ) e.center.c0)| < 2 ^ 1024
+    · simp only [h2, decide_true, Bool.not_true, Bool.false_eq_true, if_false, not_true_eq_false]
+      by_cases h3 : 0 ≤ sinY e.center.c0 (l, φ) * (1 / sin (adist (l, φ) e.center.c0))
+      · simp only [h3, decide_true, if_true]
+      · simp only [h3, decide_false, Bool.false_eq_true, if_false]
+        rw [← fromOriented_neg, neg_neg]
+    · simp only [h2, decide_false, Bool.not_false, if_true, not_false_eq_true]
+
+/-- quick rejection -/
+theorem overlapCone_far (e : ECone ℝ) (he : e.center.Coherent) (l φ r : ℝ) (hr : 0 < r)
+    (h : e.a + r < adist (l, φ) e.center.c0) : e.overlapCone l φ r = some false := by
+  rw [overlapCone_real e he l φ r hr, if_pos h]
+
+/-- the special case of the code -/
+theorem overlapCone_special (e : ECone ℝ) (he : e.center.Coherent) (l φ r : ℝ) (hr : 0 < r)
+    (h : ¬ e.a + r < adist (l, φ) e.center.c0) (h2 : ¬ |1 / sin (adist (l, φ) e.center.c0)| < 2 ^ 1024) :
+    e.overlapCone l φ r = some (decide (r ≤ e.b)) := by
+  rw [overlapCone_real e he l φ r hr, if_neg h, if_pos h2]
+
+/-- the general case -/
+theorem overlapCone_main (e : ECone ℝ) (he : e.center.Coherent) (l φ r : ℝ) (hr : 0 < r)
+    (h : ¬ e.a + r < adist (l, φ) e.center.c0) (h2 : |1 / sin (adist (l, φ) e.center.c0)| < 2 ^ 1024) :
+    e.overlapCone l φ r =
+      some ((e.ellipse.extendedGeom (Ellipse.fromOriented (sin r)
+            (1 / 2 * |sin (adist (l, φ) e.center.c0 + r) - sin (adist (l, φ) e.center.c0 - r)|)
+            (-(sinX e.center.c0 (l, φ) * (1 / sin (adist (l, φ) e.center.c0))))
+            (sinY e.center.c0 (l, φ) * (1 / sin (adist (l, φ) e.center.c0))))).contains
+          (1 / 2 * (sin (adist (l, φ) e.center.c0 + r) + sin (adist (l, φ) e.center.c0 - r)) *
+            (sinX e.center.c0 (l, φ) * (1 / sin (adist (l, φ) e.center.c0))))
+          (1 / 2 * (sin (adist (l, φ) e.center.c0 + r) + sin (adist (l, φ) e.center.c0 - r)) *
+            (sinY e.center.c0 (l, φ) * (1 / sin (adist (l, φ) e.center.c0))))) := by
+  rw [overlapCone_real e he l φ r hr, if_neg h, if_neg (not_not.mpr h2)]
+
+/-- the inverse of the norm is finite in the sense of `f64` iff the norm exceeds `2^-1024` -/
+theorem inv_finite_iff (n : ℝ) (hn : 0 < n) : |1 / n| < 2 ^ 1024 ↔ 1 / 2 ^ 1024 < n := by
+  rw [abs_of_pos (by positivity)]
+  exact one_div_lt hn (by positivity)
 
 end Hpx.Sph
